@@ -125,7 +125,10 @@ func compileNesting(c *an.Ctx, r *runnerRoles, rule string) {
 				seed[phi] = an.AVal{K: an.ANonNil}
 			}
 		}
-		ex := &an.Explorer{P: p, NoReturn: noReturn}
+		ex := &an.Explorer{P: p, NoReturn: noReturn, MaxDepth: 2,
+			Inline: func(g *ssa.Function) bool {
+				return an.Outer(g).Pkg == ct.Pkg && g != ct && an.Short(g) != fnCompileCmd
+			}}
 		inner.Bound(ex)
 		ex.Atom = func(v ssa.Value) (an.AVal, bool) {
 			for _, e := range errOf(site) {
@@ -147,12 +150,12 @@ func compileNesting(c *an.Ctx, r *runnerRoles, rule string) {
 			if ap.LastField() == "Next" && an.TypeIs(ap.Base.Type(), "pkg/executor", "Job") {
 				base := "other"
 				for _, phi := range phis {
-					if an.SameValue(ap.Base, phi) {
+					if st.SameRoot(ap.Base, phi) {
 						base = "prev"
 					}
 				}
 				val := "other"
-				if isJob(sto.Val) {
+				if isJob(st.Root(sto.Val)) {
 					val = "job"
 				}
 				return "link(" + base + ".Next=" + val + ")"
@@ -224,15 +227,23 @@ func compileNesting(c *an.Ctx, r *runnerRoles, rule string) {
 			if !inner.Blocks[pred] {
 				continue
 			}
-			good := false
-			for _, v := range an.ResolveAll(phi.Edges[i]) {
-				if isJob(v) {
-					good = true
-				}
+			good := true
+			srcs := c.P.DeepSourcesStop(phi.Edges[i], 2, false, isJob)
+			for _, v := range srcs {
+				ok := isJob(v)
 				// prev = prev.Next after prev.Next = j
 				if ap := an.AccessPath(v); ap.LastField() == "Next" {
-					good = true
+					ok = true
 				}
+				if _, isPrm := v.(*ssa.Parameter); isPrm {
+					ok = true // handed through a helper: the linking table decides
+				}
+				if !ok {
+					good = false
+				}
+			}
+			if len(srcs) == 0 {
+				good = false
 			}
 			c.Check(good, rule, an.Short(ct)+":last-pointer", phi.Pos(), "after each command the 'last job' pointer is the job just compiled", "the 'last job' pointer is not advanced to the job just compiled ("+an.Prov(phi.Edges[i])+")")
 		}
@@ -306,9 +317,12 @@ func executeTable(c *an.Ctx, r *runnerRoles, rule string, exitCode bool) {
 	var table []string
 	for _, rw := range rows {
 		rw := rw
-		ex := &an.Explorer{P: c.P, NoReturn: noReturn}
+		ex := &an.Explorer{P: c.P, NoReturn: noReturn, MaxDepth: 3,
+			Inline: func(g *ssa.Function) bool {
+				return an.Outer(g).Pkg == an.Outer(f).Pkg && g != f && g != r.run
+			}}
 		l.Bound(ex)
-		ex.Atom = func(v ssa.Value) (an.AVal, bool) {
+		ex.AtomSt = func(v ssa.Value, st *an.State) (an.AVal, bool) {
 			for _, e := range errVals {
 				if v == e {
 					if rw.err == 0 {
@@ -321,7 +335,7 @@ func executeTable(c *an.Ctx, r *runnerRoles, rule string, exitCode bool) {
 				if call, ok := ext.Tuple.(*ssa.Call); ok {
 					if cc, ok := an.IsCallTo(call, fnIsExitStatus, "mvdan.cc/sh/v3/interp.IsExitStatus"); ok && rw.ok >= 0 {
 						for _, e := range errVals {
-							if an.SameValue(cc.Args[0], e) {
+							if st.SameRoot(cc.Args[0], e) {
 								return an.ABool(rw.ok == 1), true
 							}
 						}
@@ -330,7 +344,7 @@ func executeTable(c *an.Ctx, r *runnerRoles, rule string, exitCode bool) {
 			}
 			if u, ok := v.(*ssa.UnOp); ok && u.Op == token.MUL {
 				ap := an.AccessPath(u.X)
-				if _, isFA := u.X.(*ssa.FieldAddr); isFA && ap.LastField() == "AllowFailure" && an.SameValue(ap.Base, task) && rw.af >= 0 {
+				if _, isFA := u.X.(*ssa.FieldAddr); isFA && ap.LastField() == "AllowFailure" && st.SameRoot(ap.Base, task) && rw.af >= 0 {
 					return an.ABool(rw.af == 1), true
 				}
 			}
@@ -339,12 +353,12 @@ func executeTable(c *an.Ctx, r *runnerRoles, rule string, exitCode bool) {
 		ex.Effect = func(in ssa.Instruction, st *an.State) string {
 			if sto, ok := in.(*ssa.Store); ok {
 				ap := an.AccessPath(sto.Addr)
-				if an.SameValue(ap.Base, task) && len(ap.Fields) == 1 {
+				if st.SameRoot(ap.Base, task) && len(ap.Fields) == 1 {
 					switch ap.Fields[0] {
 					case "Errored":
 						return "Errored:=" + st.Eval(sto.Val).String()
 					case "ExitCode":
-						return "ExitCode:=" + an.Prov(sto.Val)
+						return "ExitCode:=status"
 					case "Error":
 						return "Error:=err"
 					}
